@@ -251,7 +251,7 @@ func realView(b *built, w *world, features []string, orig *Spec) ([]string, erro
 		}
 		return "-"
 	}
-	lines = append(lines, "query: "+nameOrDash(sch["queryType"]), "mutation: "+nameOrDash(sch["mutationType"]))
+	lines = append(lines, "query: "+nameOrDash(sch["queryType"]), "mutation: "+nameOrDash(sch["mutationType"]), "subscription: "+nameOrDash(sch["subscriptionType"]))
 	names := universe(orig)
 	for _, n := range names {
 		d, raw, err := run(typeProbe(n))
@@ -392,6 +392,8 @@ func modelViewLines(reply string) ([]string, error) {
 			lines = append(lines, "query: "+a[1].Atom)
 		case "mutation":
 			lines = append(lines, "mutation: "+a[1].Atom)
+		case "subscription":
+			lines = append(lines, "subscription: "+a[1].Atom)
 		case "type":
 			if len(a) == 3 {
 				lines = append(lines, fmt.Sprintf("type %s: none", a[1].Atom))
@@ -462,12 +464,16 @@ func runPrevalidated(b *built, w *world, all, features []string, q *query) (log 
 	if len(errs) > 0 {
 		return nil, false
 	}
-	graphql.Execute(&graphql.Request{
+	req := &graphql.Request{
 		Context:        context.Background(),
 		Document:       doc,
 		Schema:         b.schema,
 		Features:       graphql.NewFeatureSet(features...),
 		VariableValues: q.Vars,
-	})
+	}
+	if graphql.IsSubscription(doc, "") {
+		graphql.Subscribe(req) // invokes the root field's resolver with IsSubscribe set
+	}
+	graphql.Execute(req)
 	return append([]string(nil), w.log...), true
 }
